@@ -50,6 +50,7 @@ def make_server(oidc=True, jwt=False, user="diana", usage=None, keys=None, more_
         ep.endpoint_path, ep.full_path = old.endpoint_path, old.full_path
         s.endpoint["token"] = ep
     ctx = s.context
+    C1RULES = {"refresh_token": {"supports_minting": ["access_token"]}, "access_token": {"expires_in": 600}}
     for cid in CLIENTS:
         ctx.cdb[cid] = {
             "client_id": cid, "client_secret": "secret_of_" + cid + "_0123456789abcdef",
@@ -60,6 +61,9 @@ def make_server(oidc=True, jwt=False, user="diana", usage=None, keys=None, more_
         }
         if ALLOWED[cid] is not None:
             ctx.cdb[cid]["allowed_scopes"] = list(ALLOWED[cid])
+        if usage == "c1rules" and cid == "client_1":
+            # rules of its own for two token classes, saying only part of what a rule can say
+            ctx.cdb[cid]["token_usage_rules"] = copy.deepcopy(C1RULES)
         if LOGOUT[cid]:
             ctx.cdb[cid][LOGOUT[cid]] = f"https://{cid}.example.com/logout"
         ctx.keyjar.add_symmetric(cid, ctx.cdb[cid]["client_secret"])
@@ -463,7 +467,7 @@ def cfg_line(oidc, jwt=False, usage=None):
     al = []
     for c in CLIENTS:
         al.append(c + "=" + " ".join(ALLOWED[c] if ALLOWED[c] is not None else DEFAULT_ALLOWED))
-    return "prov\treset\t" + ("1" if oidc else "0") + "\t" + ("1" if jwt else "0") + "\t" + enc_list(al) + ("\tx" if usage == "exchange" else "")
+    return "prov\treset\t" + ("1" if oidc else "0") + "\t" + ("1" if jwt else "0") + "\t" + enc_list(al) + ("\tx" if usage == "exchange" else "\tc1" if usage == "c1rules" else "")
 
 
 def parse_model(out):
